@@ -45,13 +45,14 @@ var vTags = []string{
 	`group:"g"`, `group:""`, `group:"g,soft"`, `group:"g,flatten"`, `group:"g,flatten,soft"`, `group:"g,foo"`, `group:",soft"`,
 	`name:"a" group:"g"`, `optional:"true" group:"g"`, `name:"a" optional:"true"`, `name:"a` + "`" + `b"`,
 	`group:"g" name:""`, `optional:"1"`, `optional:"T"`, `name:"`, `group:g`, `ignore-unexported:"maybe"`,
-	`name:"a" name:"b"`, `group:"g,soft,soft"`,
+	`name:"a" name:"b"`, `group:"g,soft,soft"`, `group:",flatten"`, `group:",soft"`,
 }
 
 // vFieldTypes: types of the tagged field (pointer, slices of pointer / value /
 // struct / interface elements, a plain value)
 var vFieldTypes = []reflect.Type{
 	vAType, reflect.SliceOf(vAType), reflect.TypeOf([]int{}), reflect.TypeOf([]vA{}), reflect.SliceOf(vI0Type), reflect.TypeOf(0),
+	reflect.SliceOf(reflect.SliceOf(vAType)),
 }
 
 type vBadInput struct {
@@ -72,7 +73,7 @@ func vMkFn(in, out []reflect.Type, variadic bool) interface{} {
 	}).Interface()
 }
 
-const vNumShapes = 30
+const vNumShapes = 34
 
 // genInput draws one input from the grammar.
 func (h *vHist) genInput(tag string) vBadInput {
@@ -139,13 +140,17 @@ func (h *vHist) genInput(tag string) vBadInput {
 		in.opts = []ProvideOption{As(new(fmt.Stringer))}
 	case 26: // a tagged field in a parameter object
 		tg := vTags[verifNdInt(tag+".tag", len(vTags))]
-		ft := vFieldTypes[verifNdInt(tag+".ft", len(vFieldTypes))]
+		fti := verifNdInt(tag+".ft", len(vFieldTypes))
+		ft := vFieldTypes[fti]
+		in.desc += ":ft" + vItoa(fti)
 		st := reflect.StructOf([]reflect.StructField{{Name: "In", Type: vInType, Anonymous: true}, {Name: "X", Type: ft, Tag: reflect.StructTag(tg)}})
 		in.fn = vMkFn([]reflect.Type{st}, []reflect.Type{reflect.TypeOf(&vT0{})}, false)
 		in.desc += ":" + tg
 	case 27: // a tagged field in a result object
 		tg := vTags[verifNdInt(tag+".tag", len(vTags))]
-		ft := vFieldTypes[verifNdInt(tag+".ft", len(vFieldTypes))]
+		fti := verifNdInt(tag+".ft", len(vFieldTypes))
+		ft := vFieldTypes[fti]
+		in.desc += ":ft" + vItoa(fti)
 		st := reflect.StructOf([]reflect.StructField{{Name: "Out", Type: vOutType, Anonymous: true}, {Name: "X", Type: ft, Tag: reflect.StructTag(tg)}})
 		in.fn = vMkFn(nil, []reflect.Type{st}, false)
 		in.desc += ":" + tg
@@ -153,11 +158,25 @@ func (h *vHist) genInput(tag string) vBadInput {
 		inner := reflect.StructOf([]reflect.StructField{{Name: "Out", Type: vOutType, Anonymous: true}, {Name: "X", Type: t}})
 		st := reflect.StructOf([]reflect.StructField{{Name: "Out", Type: vOutType, Anonymous: true}, {Name: "N", Type: inner}, {Name: "Y", Type: t, Tag: `name:"a"`}})
 		in.fn = vMkFn(nil, []reflect.Type{st}, false)
+	case 29: // array parameter
+		in.fn = vMkFn([]reflect.Type{reflect.ArrayOf(2, t)}, []reflect.Type{reflect.TypeOf(&vT0{})}, false)
+	case 30: // huge array of zero-size elements (a legal Go type of size 0)
+		in.fn = vMkFn([]reflect.Type{reflect.ArrayOf(1<<62, reflect.TypeOf(struct{}{}))}, []reflect.Type{reflect.TypeOf(&vT0{})}, false)
+	case 31: // array result
+		in.fn = vMkFn(nil, []reflect.Type{reflect.ArrayOf(2, t)}, false)
+	case 32: // slice result; the options decide (flatten)
+		in.fn = vMkFn(nil, []reflect.Type{sliceT}, false)
 	default: // plain valid constructor; the options decide
 		in.fn = vMkFn(nil, []reflect.Type{t}, false)
 	}
 	if in.api == 0 && in.opts == nil {
-		switch verifNdInt(tag+".opt", 14) {
+		switch verifNdInt(tag+".opt", 17) {
+		case 14:
+			in.opts = []ProvideOption{Group(",flatten")}
+		case 15:
+			in.opts = []ProvideOption{Group(",soft")}
+		case 16:
+			in.opts = []ProvideOption{Group(","), Name("")}
 		case 1:
 			in.opts = []ProvideOption{Name("a"), Group("g")}
 		case 2:
@@ -223,6 +242,14 @@ func verifC14run(p *vProfile) {
 				ob := in.apply(b.scopes[s])
 				h.assert("C14.same", ob.class == vcOK)
 				verifWitness("input-accepted")
+				// whatever was accepted can be consumed without a panic
+				if in.api != 2 {
+					pa := vProbe(a.scopes[s])
+					pb := vProbe(b.scopes[s])
+					h.assert("C14.nopanic|probe,api="+vItoa(in.api)+","+in.desc+vOptDesc(in.opts), !vHasPanic(pa))
+					h.assert("C14.same", pa == pb)
+					verifObserve("probes " + pa)
+				}
 			} else {
 				verifWitness("input-rejected")
 			}
@@ -253,4 +280,43 @@ func vOptDesc(opts []ProvideOption) string {
 		s += "," + fmt.Sprint(o)
 	}
 	return s
+}
+
+type vProbeG struct {
+	In
+	X []*vA `group:"g"`
+}
+
+type vProbeN struct {
+	In
+	X *vA `name:"a"`
+}
+
+type vProbeS struct {
+	In
+	X []*vA `group:"g,soft"`
+}
+
+// vProbe consumes, from scope s, the keys an accepted input may have been
+// registered under and reports the verdict classes.
+func vProbe(s *Scope) string {
+	fns := []interface{}{
+		func(*vA) {}, func([]*vA) {}, func(vProbeG) {}, func(vProbeN) {}, func(vProbeS) {}, func(vI0) {}, func(*vT0) {},
+	}
+	out := ""
+	for _, fn := range fns {
+		fn := fn
+		o := vGuard(func() error { return s.Invoke(fn) })
+		out += vClassNames[o.class] + vPanicText(o.panicv) + ";"
+	}
+	return out
+}
+
+func vHasPanic(s string) bool {
+	for i := 0; i+8 <= len(s); i++ {
+		if s[i:i+8] == "panicked" {
+			return true
+		}
+	}
+	return false
 }
